@@ -283,6 +283,11 @@ fn c13_feed_miss_empty_index() {
     std::mem::forget(v);
 }
 
+// `feed`'s hit path: see proofs/clone_output_glue.rs (feed over a scripted write loop, in a second copy of this
+// module).  Also tried and dropped: feed over the REAL write loop with the index lookup scripted
+// (c13_feed_hit_write_*: 7k VCCs, no verdict in 600 s) -- nested coroutines keep all their suspend states and CBMC
+// explores every resume point.
+
 // ===========================================================================
 // NOT REGISTERED (record of an attempt): neither of the two scenario harnesses below finishes -- even one feed with
 // every hash, size and offset concrete runs out of memory (5.5k VCCs after 125 s of symex, then > 14 GB).  `feed`'s
